@@ -361,3 +361,33 @@ pub fn c14(tier: Tier) -> i32 {
     rep.set("explanation", json!("states = operation sequences executed from scratch on a fresh real ReliableSender over the in-memory transport (stateless exploration, every prefix is itself executed and checked after a stabilisation phase); transitions = operations executed"));
     rep.finish()
 }
+
+pub fn replay(v: &serde_json::Value) -> i32 {
+    let mut seq = Vec::new();
+    for o in v["replay"]["ops"].as_array().cloned().unwrap_or_default() {
+        let o = o.as_str().unwrap_or("").to_string();
+        let op = match o.as_str() {
+            "Send" => Op::Send,
+            "Read" => Op::Read,
+            "Answer" => Op::Answer,
+            "Cut" => Op::Cut,
+            "Refuse" => Op::Refuse,
+            "Accept" => Op::Accept,
+            "Timer" => Op::Timer,
+            x if x.starts_with("Drop(") => Op::Drop(x[5..x.len() - 1].parse().unwrap_or(0)),
+            _ => continue,
+        };
+        seq.push(op);
+    }
+    let (_, bad, obs) = run(&seq);
+    println!("ops: {:?}\nobserved (reads as (message, connection); resolved handles): {}", seq, obs);
+    for (sig, what) in &bad {
+        println!("[{}] {}", sig, what);
+    }
+    if bad.is_empty() {
+        println!("replay did not reproduce a violation of C14");
+        0
+    } else {
+        1
+    }
+}
